@@ -55,13 +55,13 @@ Qed.
 (* ---- the translated operations coincide with the entry-by-entry specifications ---- *)
 Lemma add_is_spec a b : Mat.Matrix4x4_Add a b = add_spec a b.
 Proof.
-  mat_destruct a; mat_destruct b. unfold Mat.Matrix4x4_Add, add_spec, mat_of, get. cbv zeta. mat_cbn.
+  mat_destruct a; mat_destruct b. gen_full.
   apply mk_eq; ring.
 Qed.
 
 Lemma mul_is_spec a b : Mat.Matrix4x4_Multiply a b = mul_spec a b.
 Proof.
-  mat_destruct a; mat_destruct b. unfold Mat.Matrix4x4_Multiply, mul_spec, mat_of, sum4, get. cbv zeta. mat_cbn.
+  mat_destruct a; mat_destruct b. gen_full.
   apply mk_eq; ring.
 Qed.
 
@@ -77,37 +77,37 @@ Proof. intros Hi Hj. rewrite mul_is_spec. unfold mul_spec. now rewrite get_mat_o
 
 Lemma identity_is_spec : Mat.Identity = id_spec (F := F).
 Proof.
-  unfold Mat.Identity, id_spec, mat_of, delta. cbn [Nat.eqb]. cbv zeta. apply mk_eq; cring.
+  gen_full. apply mk_eq; cring.
 Qed.
 
 Theorem identity_entries i j : i < 4 -> j < 4 -> get (F := F) Mat.Identity i j = delta i j.
 Proof. intros. rewrite identity_is_spec. unfold id_spec. now rewrite get_mat_of. Qed.
 
 Theorem add_comm a b : Mat.Matrix4x4_Add a b = Mat.Matrix4x4_Add b a.
-Proof. mat_destruct a; mat_destruct b. unfold Mat.Matrix4x4_Add. cbv zeta. mat_cbn. apply mk_eq; ring. Qed.
+Proof. mat_destruct a; mat_destruct b. gen_full. apply mk_eq; ring. Qed.
 
 Theorem add_assoc a b c :
   Mat.Matrix4x4_Add (Mat.Matrix4x4_Add a b) c = Mat.Matrix4x4_Add a (Mat.Matrix4x4_Add b c).
-Proof. mat_destruct a; mat_destruct b; mat_destruct c. unfold Mat.Matrix4x4_Add. cbv zeta. mat_cbn. apply mk_eq; ring. Qed.
+Proof. mat_destruct a; mat_destruct b; mat_destruct c. gen_full. apply mk_eq; ring. Qed.
 
 Theorem mul_assoc a b c :
   Mat.Matrix4x4_Multiply (Mat.Matrix4x4_Multiply a b) c = Mat.Matrix4x4_Multiply a (Mat.Matrix4x4_Multiply b c).
 Proof.
-  mat_destruct a; mat_destruct b; mat_destruct c. unfold Mat.Matrix4x4_Multiply. cbv zeta. mat_cbn. apply mk_eq; ring.
+  mat_destruct a; mat_destruct b; mat_destruct c. gen_full. apply mk_eq; ring.
 Qed.
 
 Theorem mul_id_l a : Mat.Matrix4x4_Multiply Mat.Identity a = a.
-Proof. mat_destruct a. unfold Mat.Matrix4x4_Multiply, Mat.Identity. cbv zeta. mat_cbn. apply mk_eq; cring. Qed.
+Proof. mat_destruct a. gen_full. apply mk_eq; cring. Qed.
 
 Theorem mul_id_r a : Mat.Matrix4x4_Multiply a Mat.Identity = a.
-Proof. mat_destruct a. unfold Mat.Matrix4x4_Multiply, Mat.Identity. cbv zeta. mat_cbn. apply mk_eq; cring. Qed.
+Proof. mat_destruct a. gen_full. apply mk_eq; cring. Qed.
 
 Theorem mul_add_distr_l a b c :
   Mat.Matrix4x4_Multiply a (Mat.Matrix4x4_Add b c) =
   Mat.Matrix4x4_Add (Mat.Matrix4x4_Multiply a b) (Mat.Matrix4x4_Multiply a c).
 Proof.
   mat_destruct a; mat_destruct b; mat_destruct c.
-  unfold Mat.Matrix4x4_Multiply, Mat.Matrix4x4_Add. cbv zeta. mat_cbn. apply mk_eq; ring.
+  gen_full. apply mk_eq; ring.
 Qed.
 
 Theorem mul_add_distr_r a b c :
@@ -115,29 +115,28 @@ Theorem mul_add_distr_r a b c :
   Mat.Matrix4x4_Add (Mat.Matrix4x4_Multiply a c) (Mat.Matrix4x4_Multiply b c).
 Proof.
   mat_destruct a; mat_destruct b; mat_destruct c.
-  unfold Mat.Matrix4x4_Multiply, Mat.Matrix4x4_Add. cbv zeta. mat_cbn. apply mk_eq; ring.
+  gen_full. apply mk_eq; ring.
 Qed.
 
 (* the 24-term expression of Determinant is the Laplace expansion along the first row *)
 Theorem determinant_laplace a : Mat.Matrix4x4_Determinant a = det_spec a.
 Proof.
-  mat_destruct a. unfold Mat.Matrix4x4_Determinant, det_spec, minor, det3, skip, get.
-  cbn [Nat.ltb Nat.leb]. cbv zeta. mat_cbn. ring.
+  mat_destruct a. gen_full. ring.
 Qed.
 
 Theorem determinant_identity : Mat.Matrix4x4_Determinant (F := F) Mat.Identity = c1.
-Proof. unfold Mat.Matrix4x4_Determinant, Mat.Identity. cbv zeta. mat_cbn. cring. Qed.
+Proof. gen_full. cring. Qed.
 
 (* MulPosition = rows 0..2 of M (x,y,z,1)^T *)
 Theorem mulposition_affine a v : Mat.Matrix4x4_MulPosition a v = mulpos_spec a v.
 Proof.
-  mat_destruct a; destruct v. unfold Mat.Matrix4x4_MulPosition, mulpos_spec, v3_new, get. cbv zeta. mat_cbn.
+  mat_destruct a; destruct v. gen_full.
   apply v3_eq; ring.
 Qed.
 
 Theorem mulposition_identity v : Mat.Matrix4x4_MulPosition Mat.Identity v = v.
 Proof.
-  destruct v. unfold Mat.Matrix4x4_MulPosition, Mat.Identity, v3_new. cbv zeta. mat_cbn. apply v3_eq; cring.
+  destruct v. gen_full. apply v3_eq; cring.
 Qed.
 
 (* for affine b (last row 0 0 0 1) the product acts as the composition *)
@@ -146,7 +145,7 @@ Theorem mulposition_compose a b v : affine b ->
   Mat.Matrix4x4_MulPosition a (Mat.Matrix4x4_MulPosition b v).
 Proof.
   intros (H0 & H1 & H2 & H3). mat_destruct a; mat_destruct b; destruct v. cbn in H0, H1, H2, H3. subst.
-  unfold Mat.Matrix4x4_MulPosition, Mat.Matrix4x4_Multiply, v3_new. cbv zeta. mat_cbn. apply v3_eq; ring.
+  gen_full. apply v3_eq; ring.
 Qed.
 
 (* MulPosition is additive in the matrix up to the translation column being added as well *)
@@ -156,13 +155,13 @@ Theorem mulposition_linear a u v (s : F) :
          (Mat.Matrix4x4_MulPosition a v).
 Proof.
   mat_destruct a; destruct u, v.
-  unfold Mat.Matrix4x4_MulPosition, v3_new, v3_add, v3_scale, v3_sub, v3_zero. cbv zeta. mat_cbn. apply v3_eq; cring.
+  gen_full. apply v3_eq; cring.
 Qed.
 (* the determinant is multiplicative *)
 Theorem determinant_mul a b :
   Mat.Matrix4x4_Determinant (Mat.Matrix4x4_Multiply a b) = Mat.Matrix4x4_Determinant a * Mat.Matrix4x4_Determinant b.
 Proof.
-  mat_destruct a; mat_destruct b. unfold Mat.Matrix4x4_Determinant, Mat.Matrix4x4_Multiply. cbv zeta. mat_cbn.
+  mat_destruct a; mat_destruct b. gen_full.
   ring.
 Qed.
 End MatRing.
